@@ -145,16 +145,18 @@ theorem sortBy_sorted {lt : Excerpt → Excerpt → Bool} (w : WeakOrder lt) (l 
     simp only [sortBy, List.foldr_cons]
     exact insertBy_sorted w x _ ih
 
-/-- lexicographic (Nat, Int) keys give a strict weak order -/
+/-- lexicographic (Nat, Int, id) keys give a strict weak order -/
 theorem lex_weak (k1 : Excerpt → Nat) (k2 : Excerpt → Int) :
-    WeakOrder (fun a b => decide (k1 a < k1 b) || (k1 a == k1 b && decide (k2 a < k2 b))) := by
+    WeakOrder (fun a b => decide (k1 a < k1 b) ||
+      (k1 a == k1 b && (decide (k2 a < k2 b) || (k2 a == k2 b && decide (a.id < b.id))))) := by
   constructor
   · intro a b h
     simp only [Bool.or_eq_true, decide_eq_true_eq, Bool.and_eq_true, beq_iff_eq] at h
     simp only [Bool.or_eq_false_iff, decide_eq_false_iff_not, Bool.and_eq_false_iff, beq_eq_false_iff_ne]
-    rcases h with h | ⟨h1, h2⟩
+    rcases h with h | ⟨h1, h2 | ⟨h2, h3⟩⟩
     · exact ⟨by omega, Or.inl (by omega)⟩
-    · exact ⟨by omega, Or.inr (by omega)⟩
+    · exact ⟨by omega, Or.inr ⟨by omega, Or.inl (by omega)⟩⟩
+    · exact ⟨by omega, Or.inr ⟨by omega, Or.inr (String.lt_asymm h3)⟩⟩
   · intro a b c h1 h2
     simp only [Bool.or_eq_false_iff, decide_eq_false_iff_not, Bool.and_eq_false_iff, beq_eq_false_iff_ne] at h1 h2 ⊢
     obtain ⟨a1, a2⟩ := h1
@@ -164,11 +166,21 @@ theorem lex_weak (k1 : Excerpt → Nat) (k2 : Excerpt → Int) :
     · right
       have hba : k1 b = k1 a := by omega
       have hcb : k1 c = k1 b := by omega
-      rcases a2 with h | h
+      rcases a2 with h | ⟨a2, a3⟩
       · exact absurd hba h
-      · rcases b2 with h' | h'
+      · rcases b2 with h' | ⟨b2, b3⟩
         · exact absurd hcb h'
-        · omega
+        · refine ⟨by omega, ?_⟩
+          by_cases hca2 : k2 c = k2 a
+          · right
+            have hba2 : k2 b = k2 a := by omega
+            have hcb2 : k2 c = k2 b := by omega
+            rcases a3 with h | a3
+            · exact absurd hba2 h
+            · rcases b3 with h' | b3
+              · exact absurd hcb2 h'
+              · exact String.not_lt.mpr (String.le_trans (String.not_lt.mp a3) (String.not_lt.mp b3))
+          · left; exact hca2
     · left; exact hca
 
 theorem less_creation_weak : WeakOrder (less .creation) := lex_weak (·.createLamport) (·.createUnix)
@@ -223,6 +235,67 @@ theorem query_exact (lower : String → String) (idents : List Ident) (q : Query
     exact ⟨e, this.1, this.2, rfl⟩
   · rintro ⟨e, he, hm, rfl⟩
     exact ⟨e, hperm.symm.subset (List.mem_filter.mpr ⟨he, hm⟩), rfl⟩
+
+/-- every comparator is total on bugs with different ids: two bugs neither of which sorts
+before the other have the same id (since the repair: Lamport time, timestamp, then id). -/
+theorem less_total (ob : OrderBy) (a b : Excerpt) (h1 : less ob a b = false) (h2 : less ob b a = false) : a.id = b.id := by
+  cases ob
+  · simp only [less, decide_eq_false_iff_not] at h1 h2
+    exact String.le_antisymm (String.not_lt.mp h2) (String.not_lt.mp h1)
+  all_goals
+    simp only [less, Bool.or_eq_false_iff, decide_eq_false_iff_not, Bool.and_eq_false_iff, beq_eq_false_iff_ne] at h1 h2
+    obtain ⟨x1, x2⟩ := h1
+    obtain ⟨y1, y2⟩ := h2
+    rcases x2 with h | ⟨x2, x3⟩
+    · omega
+    · rcases y2 with h | ⟨y2, y3⟩
+      · omega
+      · rcases x3 with h | x3
+        · omega
+        · rcases y3 with h | y3
+          · omega
+          · exact String.le_antisymm (String.not_lt.mp y3) (String.not_lt.mp x3)
+
+theorem inj_of_nodup_map {α β : Type} (f : α → β) : ∀ (l : List α), (l.map f).Nodup → ∀ a b, a ∈ l → b ∈ l → f a = f b → a = b
+  | [], _, _, _, ha, _, _ => by cases ha
+  | x :: xs, hn, a, b, ha, hb, hab => by
+    rw [List.map_cons, List.nodup_cons] at hn
+    cases ha with
+    | head =>
+      cases hb with
+      | head => rfl
+      | tail _ hb => exact absurd (hab ▸ List.mem_map_of_mem (f := f) hb) hn.1
+    | tail _ ha =>
+      cases hb with
+      | head => exact absurd (hab ▸ List.mem_map_of_mem (f := f) ha) hn.1
+      | tail _ hb => exact inj_of_nodup_map f xs hn.2 a b ha hb hab
+
+/-- `query_deterministic`: the answer does not depend on the order in which the population is
+enumerated (the excerpts come out of a Go map, in a different order each time): for bugs with
+distinct ids, any two enumerations of the same population give the same list.  This is what lets
+a client page through the answer over several requests. -/
+theorem query_deterministic (lower : String → String) (idents : List Ident) (q : Query) (pop₁ pop₂ : List Excerpt)
+    (hperm : pop₁.Perm pop₂) (hnodup : (pop₁.map (·.id)).Nodup) :
+    run lower idents q pop₁ = run lower idents q pop₂ := by
+  obtain ⟨s₁, hr₁, hp₁, ha₁, hd₁⟩ := query_result lower idents q pop₁
+  obtain ⟨s₂, hr₂, hp₂, ha₂, hd₂⟩ := query_result lower idents q pop₂
+  rw [hr₁, hr₂]
+  have hp : s₁.Perm s₂ := hp₁.trans ((hperm.filter _).trans hp₂.symm)
+  have inj : ∀ a b, a ∈ s₁ → b ∈ s₁ → a.id = b.id → a = b := by
+    intro a b ha hb hab
+    have ha' : a ∈ pop₁ := (List.mem_filter.mp (hp₁.subset ha)).1
+    have hb' : b ∈ pop₁ := (List.mem_filter.mp (hp₁.subset hb)).1
+    exact inj_of_nodup_map (·.id) pop₁ hnodup a b ha' hb' hab
+  suffices s₁ = s₂ by rw [this]
+  cases hd : q.dir with
+  | asc =>
+    refine List.Perm.eq_of_pairwise (le := fun a b => less q.orderBy b a = false) ?_ (ha₁ hd) (ha₂ hd) hp
+    intro a b ha hb h1 h2
+    exact inj a b ha (hp.symm.subset hb) (less_total q.orderBy a b h2 h1)
+  | desc =>
+    refine List.Perm.eq_of_pairwise (le := fun a b => less q.orderBy a b = false) ?_ (hd₁ hd) (hd₂ hd) hp
+    intro a b ha hb h1 h2
+    exact inj a b ha (hp.symm.subset hb) (less_total q.orderBy a b h1 h2)
 
 /-! ## parser: rejections and what the qualifiers denote -/
 
